@@ -100,13 +100,15 @@ def _ops_list(tree):
     return list(cirq.flatten_to_ops(tree))
 
 
-def _product(ops, qubits):
-    """Independent product of the op matrices (time order), big-endian over ``qubits``."""
+def _apply_ops(ops, qubits, cols):
+    """Independent application of the op matrices (time order) to the columns of ``cols`` (D x k), big-endian."""
     n = len(qubits)
     D = 2 ** n
+    cols = np.asarray(cols, dtype=complex)
+    k = cols.shape[1]
     idx = {q: i for i, q in enumerate(qubits)}
-    shape = [2] * n + [D]
-    t = np.eye(D, dtype=complex).reshape(-1)
+    shape = [2] * n + [k]
+    t = cols.reshape(-1)
     for op in ops:
         for q in op.qubits:
             if q not in idx:
@@ -115,7 +117,12 @@ def _product(ops, qubits):
         if u is None:
             raise Violation(f"returned operation without unitary: {op!r}")
         t = L.apply_matrix(u, [idx[q] for q in op.qubits], shape, t)
-    return t.reshape(D, D)
+    return t.reshape(D, k)
+
+
+def _product(ops, qubits):
+    """Independent product of the op matrices (time order), big-endian over ``qubits``."""
+    return _apply_ops(ops, qubits, np.eye(2 ** len(qubits), dtype=complex))
 
 
 def _cmp(what, got, want, tol, phase):
@@ -877,17 +884,22 @@ def oracle_qsd(r):
 # ----------------------------------------------------------------------------- multi-controlled gates
 
 
+MC_FULL_DIM = 512  # full-matrix comparison up to 9 wires; above that basis + product test states
+
+
 @st.composite
 def _mc_case(draw):
     fn = draw(st.sampled_from(["x", "x", "rot"]))
     if fn == "x":
-        m = draw(st.integers(0, 6))
-        free = draw(st.integers(0, min(7 - m, m + 1)))
+        # the three branches of the routine: free >= m-2 (Lemma 7.2, linear), 1 <= free < m-2 (Lemma 7.3), free == 0
+        m = draw(st.sampled_from([0, 1, 2, 3, 4, 4, 5, 5, 5, 6, 6, 7]))
+        free = draw(st.integers(0, 5))
     else:
-        m = draw(st.integers(0, 4))
+        m = draw(st.sampled_from([0, 1, 2, 3, 4, 4, 5]))
         free = 0
     n = m + 1 + free
-    r = {"fn": fn, "m": m, "free": free, "names": list(draw(st.permutations(list(range(n)))))}
+    r = {"fn": fn, "m": m, "free": free, "names": list(draw(st.permutations(list(range(n))))),
+         "st": draw(st.lists(G.unit_floats(), min_size=8 * n, max_size=8 * n))}
     if fn == "rot":
         r["u"] = draw(G.oneq())
         r["su"] = draw(st.booleans())
@@ -895,8 +907,58 @@ def _mc_case(draw):
     return r
 
 
+def _mc_grid(tier):
+    """Deterministic grid over (controls, free qubits) so that every branch / recursion depth is hit in every run."""
+    out = []
+    fl = [((7 * i * i + 3 * i + 1) % 19 - 9) / 10.0 for i in range(8 * 13)]
+    for m in range(3, 8):
+        for free in range(0, 6):
+            n = m + 1 + free
+            for names in (list(range(n)), [(5 * i + 3) % n if math.gcd(5, n) == 1 else n - 1 - i for i in range(n)]):
+                out.append({"fn": "x", "m": m, "free": free, "names": names, "st": fl[: 8 * n]})
+    for m in range(5, 9):  # multi-controlled rotation reaches the multi-controlled-X ladders through its recursion
+        for su in (False, True):
+            out.append({"fn": "rot", "m": m, "free": 0, "names": list(range(m + 1)), "su": su, "real": False, "st": fl[: 8 * (m + 1)],
+                        "u": {"k": "rot", "axis": [1, 1, 0], "ang": 0.7, "e": 0.0, "tilt": 0.0, "ph": 0.0 if su else 0.4}})
+    return out
+
+
+def _mc_test_states(r, n, cpos, tpos, fpos):
+    """Columns: basis states (all controls on with every target value and several borrowed-qubit patterns, one control
+    off, all zero) and two product states with generic amplitudes built from the drawn floats."""
+    D = 2 ** n
+
+    def index(bits):
+        v = 0
+        for b in bits:
+            v = 2 * v + b
+        return v
+
+    cols = []
+    pats = [[0] * len(fpos), [1] * len(fpos), [i % 2 for i in range(len(fpos))], [(i + 1) % 2 for i in range(len(fpos))]]
+    for pat in pats:
+        for tv in (0, 1):
+            for off in (None, 0, len(cpos) - 1):
+                bits = [0] * n
+                for c in cpos:
+                    bits[c] = 1
+                if off is not None and cpos:
+                    bits[cpos[off]] = 0
+                bits[tpos] = tv
+                for f, b in zip(fpos, pat):
+                    bits[f] = b
+                cols.append(L.basis_vector(index(bits), D))
+    fl = G._pad(r.get("st"), 8 * n)
+    for s in range(2):
+        kets = [L.state_from_floats([fl[8 * q + 4 * s + j] + (0.37 if j == 0 else 0.0) for j in range(4)], 2) for q in range(n)]
+        cols.append(L.kron_all([k.reshape(2, 1) for k in kets]).reshape(-1))
+    return np.stack(cols, axis=1)
+
+
 def oracle_mc(r):
     m, free, fn = int(r["m"]), int(r.get("free", 0)), r["fn"]
+    if not (0 <= m <= 8 and 0 <= free <= 5):
+        raise Reject("size outside the generated domain")
     n = m + 1 + free
     names = list(r.get("names") or range(n))
     if sorted(names) != list(range(n)):
@@ -919,11 +981,27 @@ def oracle_mc(r):
     for op in ops:
         if not (len(op.qubits) == 1 or op.gate == cirq.CNOT or op.gate == cirq.CCNOT):
             raise Violation(what + f": operation {op!r} is not a 1-qubit gate, CNOT or CCNOT")
-    want_sub = R.controlled(np.asarray(base, dtype=complex), m)  # over controls + target
-    want = L.embed(want_sub, [order.index(q) for q in controls + [target]], [2] * n)
-    tol = 1e-7
-    _cmp(what, _product(ops, order), want, tol, False)
-    return {"nontrivial": m >= 2, "fn": fn, "m": m, "free": free, "su": bool(r.get("su"))}
+    cpos, tpos, fpos = [order.index(q) for q in controls], order.index(target), [order.index(q) for q in fr]
+    D = 2 ** n
+    full = D <= MC_FULL_DIM
+    cols = np.eye(D, dtype=complex) if full else _mc_test_states(r, n, cpos, tpos, fpos)
+    # reference action of the controlled gate on the columns: rows with all controls set are mixed pairwise by ``base``
+    i = np.arange(D)
+    on = np.ones(D, dtype=bool)
+    for c in cpos:
+        on &= ((i >> (n - 1 - c)) & 1) == 1
+    tbit = 1 << (n - 1 - tpos)
+    tv = (i & tbit) != 0
+    b = np.asarray(base, dtype=complex)
+    partner = cols[i ^ tbit]
+    want = np.where(on[:, None], np.where(tv[:, None], b[1, 1] * cols + b[1, 0] * partner, b[0, 0] * cols + b[0, 1] * partner), cols)
+    got = _apply_ops(ops, order, cols)
+    d = L.max_abs_diff(got, want)
+    if not d <= 1e-7:
+        raise Violation(what + f": action on {'the full basis' if full else 'basis and product test states'} differs from the controlled "
+                        f"matrix (borrowed qubits must return to their state) by {d:.3g} (tol 1e-07, exact)")
+    branch = "none" if m < 3 or fn != "x" else "lemma7.2" if free >= m - 2 else "lemma7.3" if free >= 1 else "no_free"
+    return {"nontrivial": m >= 2, "fn": fn, "m": m, "free": free, "su": bool(r.get("su")), "branch": branch, "full_matrix": bool(full)}
 
 
 # ----------------------------------------------------------------------------- two-qubit state preparation
@@ -1246,7 +1324,8 @@ SUBCHECKS = [
     SubCheck("cphase_fsim", _cphase_case(), oracle_cphase, quick=1500, thorough=40000, shards_quick=1),
     SubCheck("threeq", _threeq_case(), oracle_threeq, quick=500, thorough=15000, shards_quick=4, essential={"special": 0.5}),
     SubCheck("qsd", _qsd_case(), oracle_qsd, quick=500, thorough=15000, shards_quick=6, essential={"special": 0.5}),
-    SubCheck("multi_controlled", _mc_case(), oracle_mc, quick=400, thorough=10000, shards_quick=4),
+    SubCheck("multi_controlled", _mc_case(), oracle_mc, quick=400, thorough=10000, shards_quick=4, enumerate=_mc_grid,
+             essential={"branch=lemma7.2": 0.1, "branch=lemma7.3": 0.03}),
     SubCheck("state_prep", _state_case(), oracle_state, quick=1500, thorough=40000, shards_quick=2, essential={"special": 0.5}),
     SubCheck("clifford", _cliff_case(), oracle_clifford, quick=600, thorough=20000, shards_quick=2),
     SubCheck("sycamore", _syc_case(), oracle_sycamore, quick=1200, thorough=30000, shards_quick=4),
